@@ -46,6 +46,23 @@ Proof.
   cbn. eexists. eexists. eexists. repeat split. cbn. discriminate.
 Qed.
 
+(* x86-64: the patch consists of encodable instructions exactly when every integer passed in a register is a 64-bit pattern and
+   every integer passed ON THE STACK fits a sign-extended 32-bit immediate ... *)
+Theorem C17_x86_64_encodable : forall cv callee args adj,
+  forallb encodable_x64 (call_x86 8 cv callee args adj) = forallb arg_fits_x64 (passed_args (cregs cv) args).
+Proof. exact x64_encodable_iff. Qed.
+
+(* ... so "integers are passed as given" is FALSE for a stack argument beyond imm32: `push 0x100000000` does not exist
+   (the assembler refuses the patch).  Known finding C17-x86-64-stack-argument-beyond-imm32. *)
+Theorem C17_x86_64_stack_argument_beyond_imm32_refuted :
+  exists cv args, Forall (fun a => exists v, a = AInt v /\ 0 <= v < 2 ^ 64) args /\
+    forallb encodable_x64 (call_x86 8 cv 9%nat args None) = false.
+Proof.
+  exists (mk_conv [5%nat] 16 true 0), [AInt 1; AInt 4294967296]. split.
+  - repeat constructor; eexists; (split; [reflexivity|]); split; vm_compute; congruence.
+  - vm_compute. reflexivity.
+Qed.
+
 (* ARM64: immediates are rebuilt exactly from movz/movk chunks; adrp + :lo12: give the symbol's address *)
 Theorem C17_a64_load_immediate : forall sym_addr sym_word r v s, 0 <= v < 2 ^ 64 ->
   let s' := crun 8 sym_addr sym_word 0 (load_immediate r v) s in
